@@ -23,7 +23,7 @@ pub const OTHERS: [&str; 28] = [
 ];
 const KINDS: usize = 12;
 const SWITCH: usize = 3;
-const FORMS: usize = 19;
+const FORMS: usize = 22;
 const USERS: usize = 5;
 
 fn forms(n: &str) -> Vec<String> {
@@ -48,6 +48,10 @@ fn forms(n: &str) -> Vec<String> {
         format!("{}\nx", n),
         format!("{}\n(x)", n),
         format!("m {}\r\n x", n),
+        // arguments no literal can denote: the tuple without elements (it is not the empty value), held by a variable
+        format!("{}(e0)", n),
+        format!("{} e0", n),
+        format!("m {}(e0, e0)", n),
     ]
 }
 
@@ -107,6 +111,7 @@ impl Phase for Matrix {
         let mut m = Model::new();
         m.vars.insert("x".into(), RV::Int(4));
         m.vars.insert("y".into(), RV::Int(9));
+        m.vars.insert("e0".into(), RV::Tuple(vec![]));
         if var {
             m.vars.insert(name.to_string(), RV::Int(77));
         }
